@@ -22,7 +22,21 @@ func NewLinearHist(min, max float64, nbins int) *LinearHist {
 }
 
 func (h *LinearHist) bin(x float64) int {
-	return int(math.Floor(h.delta * (x - h.min)))
+	return clampBin(math.Floor(h.delta*(x-h.min)), len(h.bins))
+}
+
+// clampBin converts a bin coordinate to a bin index in [-1, nbins]
+// (-1 is the underflow bin and nbins the overflow bin). Coordinates
+// far outside the range (including ±Inf) do not fit in an int, so
+// they must be clamped before the conversion. NaN goes to the
+// underflow bin.
+func clampBin(b float64, nbins int) int {
+	if b >= float64(nbins) {
+		return nbins
+	} else if !(b >= 0) {
+		return -1
+	}
+	return int(b)
 }
 
 func (h *LinearHist) Add(x float64) {
